@@ -261,6 +261,7 @@ func main() {
 	if err := os.WriteFile(filepath.Join(dir, "export_verif_c12.go"), []byte(b.String()), 0o644); err != nil {
 		die("%v", err)
 	}
+	genC12Page(x, out, rel) // property C12, end-to-end slice: page-size hook for the two paging loops (c12.go)
 	genC01(repo, out) // property C01 (c01.go)
 	genC05(repo, out) // property C05 (c05.go)
 	genC10R(repo, out) // property C10, recovery slice: one pass of the metrics WAL timer loops (c10r.go)
